@@ -362,6 +362,10 @@ def check_case(case, ctx=None):
         prev = None
 
         def model_valid():
+            if sdef[0]:
+                # the schema-wide default is also in charge of the introspection types' own fields (`__Type.name` ...),
+                # which no type default or registration of the application covers
+                return False
             for tn in spec["order"]:
                 t = spec["types"][tn]
                 if t["kind"] == "interface" and sdef[0]:
